@@ -383,7 +383,7 @@ func coGenSingle(rng *rand.Rand, typ uint16) C09Case {
 	default:
 		_, body = coGenBody(rng, coKOther, rng.Intn(3))
 	}
-	c := C09Case{Recs: []coal.Rec{{Typ: typ, Seq: rng.Uint32(), Ms: int64(rng.Intn(1 << 40)), Body: body}}}
+	c := C09Case{Recs: []coal.Rec{{Typ: typ, Seq: rng.Uint32(), Ms: rng.Int63n(1 << 40), Body: body}}}
 	if rng.Intn(12) == 0 {
 		coFailData(rng, &c.Recs[0])
 	}
